@@ -219,6 +219,17 @@ def uses_on_random_size_list(call, what):
                         hit[0] = True
             if what == "aggregate" and e[0] in ("sum", "prod") and tuple(sp) + tuple(e[1]) in rsz:
                 hit[0] = True
+            if e[0] == "dyn":
+                # a referenced dynamic block is part of the call: look at its statements as well
+                try:
+                    objpath = tuple(sp) + tuple(e[1])
+                    o = R.get_at(call.root, objpath) if objpath else call.root
+                    for b in R.effective_blocks(call.prog, o["cls"]):
+                        if b["n"] == e[2] and b.get("dyn"):
+                            for s2 in b["st"]:
+                                _walk_exprs(s2, lambda e2, sp2=objpath: fn(e2, sp2))
+                except Exception:
+                    pass
         _walk_exprs(s, fn)
     return hit[0]
 
